@@ -87,9 +87,44 @@ pub(crate) fn remove_syntactic_sugar(
         if body.contains_anonymous_component(Some(reports)) {
             continue;
         }
+        if contains_invalid_assignment(body, reports) {
+            continue;
+        }
         new_functions.insert(name.clone(), function.clone());
     }
     (new_templates, new_functions)
+}
+
+/// Returns true if the statement contains an assignment where the left-hand
+/// side is neither a variable nor a tuple (e.g. `1 + 2 = 3`). A report is
+/// generated for each occurrence.
+fn contains_invalid_assignment(stmt: &Statement, reports: &mut ReportCollection) -> bool {
+    use Statement::*;
+    match stmt {
+        MultiSubstitution { lhe, .. } => {
+            reports.push(*TupleError::boxed_report(
+                lhe.meta(),
+                "This expression must be a tuple, a component, a signal or a variable.",
+            ));
+            true
+        }
+        IfThenElse { if_case, else_case, .. } => {
+            let mut result = contains_invalid_assignment(if_case, reports);
+            if let Some(else_case) = else_case {
+                result = contains_invalid_assignment(else_case, reports) || result;
+            }
+            result
+        }
+        While { stmt, .. } => contains_invalid_assignment(stmt, reports),
+        InitializationBlock { initializations: stmts, .. } | Block { stmts, .. } => {
+            let mut result = false;
+            for stmt in stmts {
+                result = contains_invalid_assignment(stmt, reports) || result;
+            }
+            result
+        }
+        _ => false,
+    }
 }
 
 fn remove_anonymous_from_statement(
